@@ -11,5 +11,9 @@ broadcast use {axiom_string_ext, axiom_str_ext, axiom_str_of, axiom_vec_ext, axi
 //@include spec/fol_spec.rs
 //@include spec/core_lemmas.rs
 //@include spec/fvlink_lemmas.rs
+//@include spec/block_lemmas.rs
+//@include spec/subst_lemmas.rs
+//@include spec/subst_formula_lemmas.rs
+//@include spec/subst_loop_lemmas.rs
 } // verus!
 fn main() {}
